@@ -2,23 +2,36 @@
 //! `check_response_body`, `deserialize_json` (src/endpoint.rs) as decision trees.
 //!
 //! Recognised grammar (conventions on `let`, binders and borrows: mini.rs).  Each of the four response functions
-//! has ONE parameter `R` (the response); its body is a FLOW:
+//! has ONE parameter `R` (the response); its body is a BLOCK in value position:
 //!
-//!   flow  :=  let x = E; flow                                        name for E
-//!          |  FX?; flow                                              `andThen`
-//!          |  if C { return Err(ERR)[;] } flow                       `ite C (err ..) flow`
-//!          |  let x = match DE[::<T>](B) { Ok(a) => V(a), Err(b) => W(b, B.to_vec()) }; Err(x)     `decodeError`
-//!          |  FX                                                     tail (also `return FX;`)
-//!   FX    :=  Ok(..)  |  Err(ERR)  |  if C { flow } else { flow }  |  { flow }
+//!   block :=  stmt* FX                                               value position: the block's value is the result
+//!          |  stmt*                                                  statement position: falls through to what follows
+//!   stmt  :=  let x = E;                                             name for E
+//!          |  FX?;                                                   `andThen`
+//!          |  return FX;                                             leaves the function
+//!          |  if C { block } [else { block }]                        `ite C .. ..` (a branch that falls through
+//!          |  if let Some(v) = R.headers().get(H) { block } [else { block }]      continues with what follows)
+//!          |  match R.headers().get(H) { Some(v) => block, None => block }        `header`
+//!          |  { block }
+//!   FX    :=  Ok(..)  |  Err(ERR)  |  if C { block } else { block }  |  { block }  |  return FX
 //!          |  f(R)                                                   f one of the other response functions
-//!          |  R.headers().get(H).map_or(FX, |v| FX)                  `header`
-//!          |  DE(B).map_err(|e| W(e, B.to_vec()))                    `decodeSuccess`
+//!          |  R.headers().get(H).map_or(FX, |v| FX)  |  .map_or_else(|| FX, |v| FX)  |  .map(|v| FX).unwrap_or(FX)
+//!          |  if let Some(v) = R.headers().get(H) { block } else { block }  |  match R.headers().get(H) { .. }
+//!          |  DE(B).map_err(|e| W(e, B.to_vec()))  |  match DE(B) { Ok(a) => Ok(a), Err(b) => Err(W(b, B.to_vec())) }   `decodeSuccess`
 //!          |  match DE[::<T>](B) { Ok(a) => Err(V(a)), Err(b) => Err(W(b, B.to_vec())) }          `decodeError`
-//!   ERR   :=  <..>::Other("lit".to_string() | String::from("lit") | "lit".into() | format!("fmt", ..))
+//!   ERR   :=  <..>::Other(<anything>)                  the message is NOT recorded (no property mentions it)
+//!          |  match DE[::<T>](B) { Ok(a) => V(a), Err(b) => W(b, B.to_vec()) }                    `decodeError`
 //!   B     :=  R.body() | R.body().as_slice()
-//!   C     :=  !C | R.status() != P | R.status() == P | R.status().is_success() | B.is_empty()
-//!          |  v.to_str().ok() {.filter(|x| x{.to_lowercase() | .to_ascii_lowercase() | .trim()}*.starts_with(K))}* .is_none() | .is_some()
-//!             (v the header value bound by `map_or`; K a string literal or a `const` of lib.rs)
+//!   C     :=  !C | R.status() != P | R.status() == P | R.status().is_success() | B.is_empty() | B.len() == 0 (and its variants)
+//!          |  v.to_str().ok() {.filter(|x| PRED)}* .is_none() | .is_some()
+//!          |  match v.to_str() { Ok(x) => PRED, Err(_) => false } | v.to_str().map_or(false, |x| PRED)
+//!          |  v.to_str().is_ok_and(|x| PRED) | v.to_str().map(|x| PRED).unwrap_or(false)
+//!             (the last four are recorded as `v.to_str().ok().filter(|x| PRED).is_some()`)
+//!          |  p(E, ..)             a private `fn p(..) -> bool { (let x = E;)* C }` of endpoint.rs, inlined
+//!   PRED  :=  x{.to_lowercase() | .to_ascii_lowercase() | .trim()}*.starts_with(K)
+//!             (v the header value bound by `map_or` / `if let` / `match`; K a string literal or a `const` of lib.rs / endpoint.rs)
+//!   `return` is accepted where it leaves the function (or the closure) with the value being computed; inside an
+//!   operand of `?` it is not.
 //!   DE    :=  the free function `deserialize_json`, whose own body must be
 //!               let mut D = <..>::Deserializer::from_slice(<param>);
 //!               let V = <..>::deserialize(&mut D)?;
@@ -32,12 +45,14 @@ const FILE: &str = "endpoint.rs";
 const FNS: &[&str] = &["check_response_status", "check_response_body", "endpoint_response", "endpoint_response_status_only"];
 const DE: &str = "deserialize_json";
 
+#[derive(Clone)]
 pub struct HPred {
     pub ops: Vec<String>,
     pub test: String,
     pub arg: String,
 }
 
+#[derive(Clone)]
 pub enum Cond {
     StatusNe(String),
     StatusEq(String),
@@ -47,9 +62,11 @@ pub enum Cond {
     Not(Box<Cond>),
 }
 
+#[derive(Clone)]
 pub enum Flow {
     Ok,
-    ErrOther(String),
+    /// `Err(<..>::Other(<any message>))` — the message text is not part of any property and is not recorded
+    ErrOther,
     Ite(Cond, Box<Flow>, Box<Flow>),
     AndThen(Box<Flow>, Box<Flow>),
     Header(String, Box<Flow>, Box<Flow>),
@@ -62,6 +79,7 @@ struct Cx<'a> {
     item: &'a str,
     resp: String,
     lib: &'a syn::File,
+    file: &'a syn::File,
 }
 
 fn is_resp(cx: &Cx, e: &syn::Expr) -> bool {
@@ -72,21 +90,68 @@ fn is_resp(cx: &Cx, e: &syn::Expr) -> bool {
 fn is_body(cx: &Cx, e: &syn::Expr) -> bool {
     let (root, calls) = chain(strip_ref(e));
     let names: Vec<String> = calls.iter().map(|c| c.method.to_string()).collect();
-    is_resp(cx, root) && (names == ["body"] || names == ["body", "as_slice"]) && calls.iter().all(|c| c.args.is_empty())
+    is_resp(cx, root) && (names == ["body"] || names == ["body", "as_slice"] || names == ["body", "as_ref"]) && calls.iter().all(|c| c.args.is_empty())
 }
 
+/// `R.headers().get(H)` → H
+fn header_get(cx: &Cx, env: &Env, e: &syn::Expr) -> Option<String> {
+    let r = env.resolve(e);
+    let (root, calls) = chain(strip_ref(&r));
+    if is_resp(cx, root) && calls.len() == 2 && calls[0].method == "headers" && calls[0].args.is_empty() && calls[1].method == "get" && calls[1].args.len() == 1 {
+        return Some(canon(strip_ref(&calls[1].args[0])));
+    }
+    None
+}
+
+/// a string literal, or a `const NAME: &str = "lit"` of lib.rs / endpoint.rs
 fn text_const(cx: &Cx, e: &syn::Expr) -> Option<String> {
     if let Some(l) = str_lit(e) {
         return Some(l);
     }
     let id = ident_of(strip_ref(e))?;
-    cx.lib.items.iter().find_map(|it| if let syn::Item::Const(c) = it { if c.ident == id.as_str() { str_lit(&c.expr) } else { None } } else { None })
+    for f in [cx.lib, cx.file] {
+        let hit = f.items.iter().find_map(|it| if let syn::Item::Const(c) = it { if c.ident == id.as_str() { str_lit(&c.expr) } else { None } } else { None });
+        if hit.is_some() {
+            return hit;
+        }
+    }
+    None
+}
+
+/// `x.<op>()*.<test>(K)` with x the given binder
+fn hpred(cx: &Cx, x: &str, body: &syn::Expr) -> R<HPred> {
+    let bad = || fail(FILE, cx.item, format!("a text predicate `{x}.<op>()*.<test>(<literal or const>)`, found `{}`", canon(body)));
+    let (proot, pcalls) = chain(body);
+    if ident_of(strip_ref(proot)).as_deref() != Some(x) || pcalls.is_empty() {
+        return bad();
+    }
+    let (last, init) = pcalls.split_last().unwrap();
+    if !init.iter().all(|q| q.args.is_empty()) || last.args.len() != 1 {
+        return bad();
+    }
+    let arg = match text_const(cx, &last.args[0]) {
+        Some(a) => a,
+        None => return fail(FILE, cx.item, format!("a string literal or a `const` of lib.rs / endpoint.rs as argument of `.{}(..)`, found `{}`", last.method, canon(&last.args[0]))),
+    };
+    Ok(HPred { ops: init.iter().map(|q| q.method.to_string()).collect(), test: last.method.to_string(), arg })
+}
+
+fn is_false(e: &syn::Expr) -> bool {
+    matches!(strip(e), syn::Expr::Lit(l) if matches!(&l.lit, syn::Lit::Bool(b) if !b.value))
+}
+
+/// `it.to_str()`?
+fn is_to_str_of_it(e: &syn::Expr) -> bool {
+    let (root, calls) = chain(e);
+    ident_of(strip_ref(root)).as_deref() == Some("it") && calls.len() == 1 && calls[0].method == "to_str" && calls[0].args.is_empty()
 }
 
 fn cond(cx: &Cx, env: &Env, e: &syn::Expr) -> R<Cond> {
     let r = env.resolve(e);
     let e = strip(&r);
     let bad = || fail(FILE, cx.item, format!("a condition of the listed grammar, found `{}`", canon(e)));
+    // every header test is normalised to `it.to_str().ok().filter(P).is_some()` (or `.is_none()`)
+    let header_is_some = |p: HPred| Cond::HeaderTest { conv: vec!["to_str".into(), "ok".into()], filters: vec![p], fin: "is_some".into() };
     match e {
         syn::Expr::Unary(u) if matches!(u.op, syn::UnOp::Not(_)) => Ok(Cond::Not(Box::new(cond(cx, env, &u.expr)?))),
         syn::Expr::Binary(b) => {
@@ -94,6 +159,24 @@ fn cond(cx: &Cx, env: &Env, e: &syn::Expr) -> R<Cond> {
                 let (root, calls) = chain(strip_ref(x));
                 is_resp(cx, root) && calls.len() == 1 && calls[0].method == "status" && calls[0].args.is_empty()
             };
+            // <body>.len() == 0 | != 0 | > 0 | < 1 ..
+            let is_len = |x: &syn::Expr| match strip(x) {
+                syn::Expr::MethodCall(m) => m.method == "len" && m.args.is_empty() && is_body(cx, &m.receiver),
+                _ => false,
+            };
+            let (len_side, num, flipped) = if is_len(&b.left) { (true, int_lit(&b.right), false) } else if is_len(&b.right) { (true, int_lit(&b.left), true) } else { (false, None, false) };
+            if len_side {
+                let empty = Cond::BodyIsEmpty;
+                let nonempty = Cond::Not(Box::new(Cond::BodyIsEmpty));
+                return match (&b.op, num, flipped) {
+                    (syn::BinOp::Eq(_), Some(0), _) => Ok(empty),
+                    (syn::BinOp::Ne(_), Some(0), _) => Ok(nonempty),
+                    (syn::BinOp::Gt(_), Some(0), false) | (syn::BinOp::Lt(_), Some(0), true) => Ok(nonempty),
+                    (syn::BinOp::Lt(_), Some(1), false) | (syn::BinOp::Gt(_), Some(1), true) => Ok(empty),
+                    (syn::BinOp::Ge(_), Some(1), false) | (syn::BinOp::Le(_), Some(1), true) => Ok(nonempty),
+                    _ => bad(),
+                };
+            }
             let (other, ok) = if is_status(&b.left) { (&b.right, true) } else if is_status(&b.right) { (&b.left, true) } else { (&b.right, false) };
             if !ok {
                 return bad();
@@ -101,6 +184,64 @@ fn cond(cx: &Cx, env: &Env, e: &syn::Expr) -> R<Cond> {
             match &b.op {
                 syn::BinOp::Ne(_) => Ok(Cond::StatusNe(canon(strip_ref(other)))),
                 syn::BinOp::Eq(_) => Ok(Cond::StatusEq(canon(strip_ref(other)))),
+                _ => bad(),
+            }
+        }
+        // a private predicate of endpoint.rs: `fn f(p, ..) -> bool { (let x = E;)* C }` is inlined
+        syn::Expr::Call(c) => {
+            let name = match ident_of(&c.func) {
+                Some(n) => n,
+                None => return bad(),
+            };
+            let f = match free_fn(cx.file, &name) {
+                Some(f) if !FNS.contains(&name.as_str()) && name != DE => f,
+                _ => return bad(),
+            };
+            let params = param_names(&f.sig);
+            if params.len() != c.args.len() {
+                return bad();
+            }
+            let mut inner = Env::default();
+            for (p, a) in params.iter().zip(c.args.iter()) {
+                inner.map.insert(p.clone(), strip_ref(a).clone());
+            }
+            let n = f.block.stmts.len();
+            for (k, st) in f.block.stmts.iter().enumerate() {
+                match st {
+                    syn::Stmt::Local(l) if k + 1 < n => match plain_let(l) {
+                        Some((nm, false, init)) => inner.bind(&nm, init),
+                        _ => return fail(FILE, cx.item, format!("`let x = E;` in the predicate `{name}`, found `{}`", canon(l))),
+                    },
+                    syn::Stmt::Expr(x, None) if k + 1 == n => return cond(cx, &inner, x),
+                    syn::Stmt::Expr(syn::Expr::Return(r), _) if k + 1 == n && r.expr.is_some() => return cond(cx, &inner, r.expr.as_ref().unwrap()),
+                    other => return fail(FILE, cx.item, format!("a predicate `{name}` of the form `(let x = E;)* <condition>`, found `{}`", canon(other))),
+                }
+            }
+            bad()
+        }
+        // match it.to_str() { Ok(x) => P(x), Err(_) => false }
+        syn::Expr::Match(m) if is_to_str_of_it(&m.expr) && m.arms.len() == 2 => {
+            let mut p = None;
+            let mut err_false = false;
+            for arm in &m.arms {
+                if arm.guard.is_some() {
+                    return bad();
+                }
+                match &arm.pat {
+                    syn::Pat::TupleStruct(ts) if ts.path.is_ident("Ok") && ts.elems.len() == 1 => {
+                        let b = match pat_binder(&ts.elems[0]) {
+                            Some(b) => b,
+                            None => return bad(),
+                        };
+                        p = Some(hpred(cx, &b, block_expr(&arm.body))?);
+                    }
+                    syn::Pat::TupleStruct(ts) if ts.path.is_ident("Err") && ts.elems.len() == 1 && matches!(ts.elems[0], syn::Pat::Wild(_)) => err_false = is_false(block_expr(&arm.body)),
+                    syn::Pat::Wild(_) => err_false = is_false(block_expr(&arm.body)),
+                    _ => return bad(),
+                }
+            }
+            match (p, err_false) {
+                (Some(p), true) => Ok(header_is_some(p)),
                 _ => bad(),
             }
         }
@@ -115,10 +256,30 @@ fn cond(cx: &Cx, env: &Env, e: &syn::Expr) -> R<Cond> {
                     return Ok(Cond::StatusIsSuccess);
                 }
             }
+            // it.to_str().map_or(false, |x| P) | it.to_str().is_ok_and(|x| P) | it.to_str().map(|x| P).unwrap_or(false)
+            if name == "map_or" && m.args.len() == 2 && is_false(&m.args[0]) && is_to_str_of_it(&m.receiver) {
+                if let Some((x, body)) = closure1(&m.args[1]) {
+                    return Ok(header_is_some(hpred(cx, &x, body)?));
+                }
+            }
+            if name == "is_ok_and" && m.args.len() == 1 && is_to_str_of_it(&m.receiver) {
+                if let Some((x, body)) = closure1(&m.args[0]) {
+                    return Ok(header_is_some(hpred(cx, &x, body)?));
+                }
+            }
+            if name == "unwrap_or" && m.args.len() == 1 && is_false(&m.args[0]) {
+                if let syn::Expr::MethodCall(mm) = strip(&m.receiver) {
+                    if mm.method == "map" && mm.args.len() == 1 && is_to_str_of_it(&mm.receiver) {
+                        if let Some((x, body)) = closure1(&mm.args[0]) {
+                            return Ok(header_is_some(hpred(cx, &x, body)?));
+                        }
+                    }
+                }
+            }
             if (name == "is_none" || name == "is_some") && m.args.is_empty() {
                 // it.to_str().ok() {.filter(|x| ..)}*
                 let (root, calls) = chain(&m.receiver);
-                if ident_of(root).as_deref() != Some("it") {
+                if ident_of(strip_ref(root)).as_deref() != Some("it") {
                     return bad();
                 }
                 let mut conv = Vec::new();
@@ -130,19 +291,7 @@ fn cond(cx: &Cx, env: &Env, e: &syn::Expr) -> R<Cond> {
                             Some(p) => p,
                             None => return bad(),
                         };
-                        let (proot, pcalls) = chain(body);
-                        if ident_of(strip_ref(proot)).as_deref() != Some(x.as_str()) || pcalls.is_empty() {
-                            return bad();
-                        }
-                        let (last, init) = pcalls.split_last().unwrap();
-                        if !init.iter().all(|q| q.args.is_empty()) || last.args.len() != 1 {
-                            return bad();
-                        }
-                        let arg = match text_const(cx, &last.args[0]) {
-                            Some(a) => a,
-                            None => return fail(FILE, cx.item, format!("a string literal or a `const` of lib.rs as argument of `.{}(..)`, found `{}`", last.method, canon(&last.args[0]))),
-                        };
-                        filters.push(HPred { ops: init.iter().map(|q| q.method.to_string()).collect(), test: last.method.to_string(), arg });
+                        filters.push(hpred(cx, &x, body)?);
                     } else if c.args.is_empty() && filters.is_empty() {
                         conv.push(n);
                     } else {
@@ -157,34 +306,6 @@ fn cond(cx: &Cx, env: &Env, e: &syn::Expr) -> R<Cond> {
     }
 }
 
-/// ERR := <..>::Other(<message>)
-fn err_other(cx: &Cx, env: &Env, e: &syn::Expr) -> R<Flow> {
-    let r = env.resolve(e);
-    if let syn::Expr::Call(c) = strip(&r) {
-        if last_segment(&c.func).as_deref() == Some("Other") && c.args.len() == 1 {
-            let a = strip(&c.args[0]);
-            if let Some((fmt, _)) = format_macro(a) {
-                return Ok(Flow::ErrOther(fmt));
-            }
-            if let syn::Expr::MethodCall(m) = a {
-                if let Some(l) = str_lit(&m.receiver) {
-                    if matches!(m.method.to_string().as_str(), "to_string" | "to_owned" | "into") {
-                        return Ok(Flow::ErrOther(l));
-                    }
-                }
-            }
-            if let syn::Expr::Call(sc) = a {
-                if canon(&sc.func) == "String::from" && sc.args.len() == 1 {
-                    if let Some(l) = str_lit(&sc.args[0]) {
-                        return Ok(Flow::ErrOther(l));
-                    }
-                }
-            }
-        }
-    }
-    fail(FILE, cx.item, format!("`<..>::Other(<message text>)`, found `{}`", canon(e)))
-}
-
 /// `V(a)` / `W(b, B.to_vec())` → (variant, keeps the body?)
 fn variant_of(cx: &Cx, env: &Env, e: &syn::Expr, binder: &str) -> R<(String, bool)> {
     let r = env.resolve(e);
@@ -195,7 +316,7 @@ fn variant_of(cx: &Cx, env: &Env, e: &syn::Expr, binder: &str) -> R<(String, boo
                     1 => return Ok((v, false)),
                     2 => {
                         if let syn::Expr::MethodCall(m) = strip(&c.args[1]) {
-                            if m.method == "to_vec" && m.args.is_empty() && is_body(cx, &m.receiver) {
+                            if (m.method == "to_vec" || m.method == "to_owned" || m.method == "clone") && m.args.is_empty() && is_body(cx, &m.receiver) {
                                 return Ok((v, true));
                             }
                         }
@@ -251,35 +372,87 @@ fn de_match<'a>(cx: &Cx, env: &Env, e: &'a syn::Expr) -> Option<(String, (String
     None
 }
 
-fn unwrap_err(e: &syn::Expr) -> Option<&syn::Expr> {
+fn unwrap_ctor<'a>(e: &'a syn::Expr, ctor: &str) -> Option<&'a syn::Expr> {
     if let syn::Expr::Call(c) = block_expr(e) {
-        if ident_of(&c.func).as_deref() == Some("Err") && c.args.len() == 1 {
+        if ident_of(&c.func).as_deref() == Some(ctor) && c.args.len() == 1 {
             return Some(&c.args[0]);
         }
     }
     None
 }
 
-fn flow_expr(cx: &Cx, env: &Env, e: &syn::Expr) -> R<Flow> {
+/// the argument of `Err(..)`: `<..>::Other(<anything>)`, or `match DE(B) { Ok(a) => V(a), Err(b) => W(b, B.to_vec()) }`
+fn err_value(cx: &Cx, env: &Env, e: &syn::Expr) -> R<Flow> {
+    let r = env.resolve(e);
+    let x = strip(&r);
+    if let syn::Expr::Call(c) = x {
+        if last_segment(&c.func).as_deref() == Some("Other") && c.args.len() == 1 {
+            return Ok(Flow::ErrOther);
+        }
+    }
+    if let Some((ty, (ob, ox), (eb, ex))) = de_match(cx, &Env::default(), x) {
+        let (okv, _) = variant_of(cx, &Env::default(), block_expr(ox), &ob)?;
+        let (erv, keeps) = variant_of(cx, &Env::default(), block_expr(ex), &eb)?;
+        return Ok(Flow::DecodeError { de: DE.into(), ty, ok_variant: okv, err_variant: erv, keeps_body: keeps });
+    }
+    fail(FILE, cx.item, format!("`Err(<..>::Other(..))` or `Err(match {DE}(<body>) {{ Ok(a) => V(a), Err(b) => W(b, <body>.to_vec()) }})`, found `Err({})`", canon(e)))
+}
+
+/// `Some(x) => A, None | _ => B` → (x, A, B)
+fn option_arms(m: &syn::ExprMatch) -> Option<(String, &syn::Expr, &syn::Expr)> {
+    if m.arms.len() != 2 || m.arms.iter().any(|a| a.guard.is_some()) {
+        return None;
+    }
+    let mut some = None;
+    let mut none = None;
+    for arm in &m.arms {
+        if let Some(b) = pat_some(&arm.pat) {
+            some = Some((b, &*arm.body));
+        } else if pat_is_none(&arm.pat) || matches!(arm.pat, syn::Pat::Wild(_)) {
+            none = Some(&*arm.body);
+        }
+    }
+    let (b, a) = some?;
+    Some((b, a, none?))
+}
+
+fn as_stmts(e: &syn::Expr) -> Vec<syn::Stmt> {
+    match strip(e) {
+        syn::Expr::Block(b) if b.label.is_none() => b.block.stmts.clone(),
+        other => vec![syn::Stmt::Expr(other.clone(), None)],
+    }
+}
+
+/// the value of a `Result`-typed expression.  `tail`: the expression is the result of the enclosing function or closure,
+/// so `return X` inside it means X; under a `?` (`tail = false`) a `return` is not accepted.
+fn flow_expr(cx: &Cx, env: &Env, e: &syn::Expr, tail: bool) -> R<Flow> {
     let e = strip(e);
     // a name for something?
     if let Some(id) = ident_of(e) {
         if let Some(x) = env.map.get(&id) {
             let x = x.clone();
-            return flow_expr(cx, env, &x);
+            return flow_expr(cx, env, &x, tail);
         }
     }
     match e {
-        syn::Expr::Return(r) if r.expr.is_some() => flow_expr(cx, env, r.expr.as_ref().unwrap()),
-        syn::Expr::Block(b) if b.label.is_none() => flow_block(cx, env, &b.block.stmts),
+        syn::Expr::Return(r) if r.expr.is_some() && tail => flow_expr(cx, env, r.expr.as_ref().unwrap(), tail),
+        syn::Expr::Block(b) if b.label.is_none() => flow_block(cx, env, &b.block.stmts, None, tail),
         syn::Expr::If(i) => {
-            let c = cond(cx, env, &i.cond)?;
-            let t = flow_block(cx, env, &i.then_branch.stmts)?;
-            let f = match &i.else_branch {
-                Some((_, x)) => flow_expr(cx, env, x)?,
-                None => return fail(FILE, cx.item, "`if C { .. } else { .. }` in tail position"),
+            let els = match &i.else_branch {
+                Some((_, x)) => flow_expr(cx, env, x, tail)?,
+                None => return fail(FILE, cx.item, "`if C { .. } else { .. }` in value position"),
             };
-            Ok(Flow::Ite(c, Box::new(t), Box::new(f)))
+            if let syn::Expr::Let(l) = strip(&i.cond) {
+                // if let Some(x) = R.headers().get(H) { present } else { absent }
+                if let (Some(x), Some(h)) = (pat_some(&l.pat), header_get(cx, env, &l.expr)) {
+                    let present = flow_block(cx, &env.with_rename(&x, "it"), &i.then_branch.stmts, None, tail)?;
+                    return Ok(Flow::Header(h, Box::new(els), Box::new(present)));
+                }
+                return fail(FILE, cx.item, format!("`if let Some(x) = <response>.headers().get(H)`, found `{}`", canon(&i.cond)));
+            }
+            let c = cond(cx, env, &i.cond)?;
+            let t = flow_block(cx, env, &i.then_branch.stmts, None, tail)?;
+            Ok(Flow::Ite(c, Box::new(t), Box::new(els)))
         }
         syn::Expr::Call(c) => {
             let f = last_segment(&c.func).unwrap_or_default();
@@ -287,38 +460,78 @@ fn flow_expr(cx: &Cx, env: &Env, e: &syn::Expr) -> R<Flow> {
                 return Ok(Flow::Ok);
             }
             if ident_of(&c.func).as_deref() == Some("Err") && c.args.len() == 1 {
-                return err_other(cx, env, &c.args[0]);
+                return err_value(cx, env, &c.args[0]);
             }
             if FNS.contains(&f.as_str()) && c.args.len() == 1 && is_resp(cx, &c.args[0]) {
                 return Ok(Flow::Call(f));
             }
             fail(FILE, cx.item, format!("Ok(..), Err(..) or a call of {} on the response, found `{}`", FNS.join("/"), canon(e)))
         }
-        syn::Expr::Match(_) => {
-            // match DE::<T>(B) { Ok(a) => Err(V(a)), Err(b) => Err(W(b, B.to_vec())) }
+        syn::Expr::Match(m) => {
+            // match R.headers().get(H) { Some(x) => present, None => absent }
+            if let Some(h) = header_get(cx, env, &m.expr) {
+                if let Some((x, a, b)) = option_arms(m) {
+                    let present = flow_block(cx, &env.with_rename(&x, "it"), &as_stmts(a), None, tail)?;
+                    let absent = flow_block(cx, env, &as_stmts(b), None, tail)?;
+                    return Ok(Flow::Header(h, Box::new(absent), Box::new(present)));
+                }
+            }
             if let Some((ty, (ob, ox), (eb, ex))) = de_match(cx, env, e) {
-                if let (Some(ov), Some(ev)) = (unwrap_err(ox), unwrap_err(ex)) {
+                // match DE::<T>(B) { Ok(a) => Err(V(a)), Err(b) => Err(W(b, B.to_vec())) }
+                if let (Some(ov), Some(ev)) = (unwrap_ctor(ox, "Err"), unwrap_ctor(ex, "Err")) {
                     let (okv, _) = variant_of(cx, env, ov, &ob)?;
                     let (erv, keeps) = variant_of(cx, env, ev, &eb)?;
                     return Ok(Flow::DecodeError { de: DE.into(), ty, ok_variant: okv, err_variant: erv, keeps_body: keeps });
                 }
+                // match DE(B) { Ok(a) => Ok(a), Err(b) => Err(W(b, B.to_vec())) }
+                if let (Some(ov), Some(ev)) = (unwrap_ctor(ox, "Ok"), unwrap_ctor(ex, "Err")) {
+                    if ident_of(ov).as_deref() == Some(ob.as_str()) {
+                        let (erv, keeps) = variant_of(cx, env, ev, &eb)?;
+                        return Ok(Flow::DecodeSuccess { de: DE.into(), err_variant: erv, keeps_body: keeps });
+                    }
+                }
             }
-            fail(FILE, cx.item, format!("`match {DE}::<T>(<body>) {{ Ok(a) => Err(V(a)), Err(b) => Err(W(b, <body>.to_vec())) }}`, found `{}`", canon(e)))
+            fail(FILE, cx.item, format!("a `match` on the header lookup or on `{DE}(<body>)`, found `{}`", canon(e)))
         }
         syn::Expr::MethodCall(m) => {
             let name = m.method.to_string();
-            // R.headers().get(H).map_or(FX, |v| FX)
-            if name == "map_or" && m.args.len() == 2 {
-                let (root, calls) = chain(&m.receiver);
-                if is_resp(cx, root) && calls.len() == 2 && calls[0].method == "headers" && calls[1].method == "get" && calls[1].args.len() == 1 {
-                    let h = canon(strip_ref(&calls[1].args[0]));
-                    let absent = flow_expr(cx, env, &m.args[0])?;
+            // R.headers().get(H).map_or(FX, |v| FX) | .map_or_else(|| FX, |v| FX)
+            if (name == "map_or" || name == "map_or_else") && m.args.len() == 2 {
+                if let Some(h) = header_get(cx, env, &m.receiver) {
+                    let absent = if name == "map_or" {
+                        flow_expr(cx, env, &m.args[0], false)?
+                    } else {
+                        match strip(&m.args[0]) {
+                            syn::Expr::Closure(c) if c.inputs.is_empty() => flow_expr(cx, env, &c.body, true)?,
+                            _ => return fail(FILE, cx.item, "`.map_or_else(|| <absent>, |v| <present>)`"),
+                        }
+                    };
                     let (v, body) = match closure1(&m.args[1]) {
                         Some(p) => p,
                         None => return fail(FILE, cx.item, "`.map_or(<absent>, |v| <present>)`"),
                     };
-                    let present = flow_expr(cx, &env.with_rename(&v, "it"), body)?;
+                    // a closure is a function of its own: `return` in it yields the closure's value
+                    let present = flow_expr(cx, &env.with_rename(&v, "it"), body, true)?;
                     return Ok(Flow::Header(h, Box::new(absent), Box::new(present)));
+                }
+            }
+            // R.headers().get(H).map(|v| FX).unwrap_or(FX) | .unwrap_or_else(|| FX)
+            if (name == "unwrap_or" || name == "unwrap_or_else") && m.args.len() == 1 {
+                if let syn::Expr::MethodCall(mm) = strip(&m.receiver) {
+                    if mm.method == "map" && mm.args.len() == 1 {
+                        if let (Some(h), Some((v, body))) = (header_get(cx, env, &mm.receiver), closure1(&mm.args[0])) {
+                            let absent = if name == "unwrap_or" {
+                                flow_expr(cx, env, &m.args[0], false)?
+                            } else {
+                                match strip(&m.args[0]) {
+                                    syn::Expr::Closure(c) if c.inputs.is_empty() => flow_expr(cx, env, &c.body, true)?,
+                                    _ => return fail(FILE, cx.item, "`.unwrap_or_else(|| <absent>)`"),
+                                }
+                            };
+                            let present = flow_expr(cx, &env.with_rename(&v, "it"), body, true)?;
+                            return Ok(Flow::Header(h, Box::new(absent), Box::new(present)));
+                        }
+                    }
                 }
             }
             // DE(B).map_err(|e| W(e, B.to_vec()))
@@ -337,10 +550,17 @@ fn flow_expr(cx: &Cx, env: &Env, e: &syn::Expr) -> R<Flow> {
     }
 }
 
-fn flow_block(cx: &Cx, env: &Env, stmts: &[syn::Stmt]) -> R<Flow> {
+/// a block.  `k = None`: the block's value is the result (value position); `k = Some(f)`: the block stands in statement
+/// position and `f` is what happens after falling off its end.
+fn flow_block(cx: &Cx, env: &Env, stmts: &[syn::Stmt], k: Option<&Flow>, tail: bool) -> R<Flow> {
     let (first, rest) = match stmts.split_first() {
         Some(x) => x,
-        None => return fail(FILE, cx.item, "a non-empty block"),
+        None => {
+            return match k {
+                Some(f) => Ok(f.clone()),
+                None => fail(FILE, cx.item, "a non-empty block"),
+            }
+        }
     };
     match first {
         syn::Stmt::Local(l) => {
@@ -348,46 +568,64 @@ fn flow_block(cx: &Cx, env: &Env, stmts: &[syn::Stmt]) -> R<Flow> {
                 Some((n, false, i)) => (n, i),
                 _ => return fail(FILE, cx.item, format!("`let x = E;`, found `{}`", canon(l))),
             };
-            // let x = match DE::<T>(B) { Ok(a) => V(a), Err(b) => W(b, B.to_vec()) }; Err(x)
-            if let Some((ty, (ob, ox), (eb, ex))) = de_match(cx, env, init) {
-                let tail_ok = match rest {
-                    [syn::Stmt::Expr(t, None)] => unwrap_err(t).and_then(|x| ident_of(x)).as_deref() == Some(name.as_str()),
-                    _ => false,
-                };
-                if !tail_ok {
-                    return fail(FILE, cx.item, format!("`Err({name})` right after `let {name} = match {DE}(..) {{ .. }};`"));
-                }
-                let (okv, _) = variant_of(cx, env, block_expr(ox), &ob)?;
-                let (erv, keeps) = variant_of(cx, env, block_expr(ex), &eb)?;
-                return Ok(Flow::DecodeError { de: DE.into(), ty, ok_variant: okv, err_variant: erv, keeps_body: keeps });
-            }
             let mut env2 = env.clone();
             env2.bind(&name, init);
-            flow_block(cx, &env2, rest)
+            flow_block(cx, &env2, rest, k, tail)
         }
         syn::Stmt::Expr(e, semi) => {
-            if rest.is_empty() {
-                if semi.is_some() && !matches!(strip(e), syn::Expr::Return(_)) {
+            let e0 = strip(e);
+            if let syn::Expr::Return(r) = e0 {
+                // leaves the function (or closure) whatever follows
+                if !tail {
+                    return fail(FILE, cx.item, "no `return` inside an expression that is followed by `?`");
+                }
+                return match &r.expr {
+                    Some(x) => flow_expr(cx, env, x, true),
+                    None => fail(FILE, cx.item, "`return <value>`"),
+                };
+            }
+            if rest.is_empty() && k.is_none() {
+                if semi.is_some() {
                     return fail(FILE, cx.item, format!("a tail expression, found the statement `{};`", canon(e)));
                 }
-                return flow_expr(cx, env, e);
+                return flow_expr(cx, env, e, tail);
             }
-            match strip(e) {
+            // statement position: what follows
+            let cont = flow_block(cx, env, rest, k, tail)?;
+            match e0 {
                 syn::Expr::Try(t) => {
-                    let a = flow_expr(cx, env, &t.expr)?;
-                    let b = flow_block(cx, env, rest)?;
-                    Ok(Flow::AndThen(Box::new(a), Box::new(b)))
+                    let a = flow_expr(cx, env, &t.expr, false)?;
+                    Ok(Flow::AndThen(Box::new(a), Box::new(cont)))
                 }
-                syn::Expr::If(i) if i.else_branch.is_none() => {
-                    let c = cond(cx, env, &i.cond)?;
-                    let t = match i.then_branch.stmts.as_slice() {
-                        [syn::Stmt::Expr(syn::Expr::Return(r), _)] if r.expr.is_some() => flow_expr(cx, env, r.expr.as_ref().unwrap())?,
-                        _ => return fail(FILE, cx.item, "`if C { return Err(..); }`"),
+                syn::Expr::Block(b) if b.label.is_none() => flow_block(cx, env, &b.block.stmts, Some(&cont), tail),
+                syn::Expr::If(i) => {
+                    let els = match &i.else_branch {
+                        Some((_, x)) => flow_block(cx, env, &as_stmts(x), Some(&cont), tail)?,
+                        None => cont.clone(),
                     };
-                    let f = flow_block(cx, env, rest)?;
-                    Ok(Flow::Ite(c, Box::new(t), Box::new(f)))
+                    if let syn::Expr::Let(l) = strip(&i.cond) {
+                        if let (Some(x), Some(h)) = (pat_some(&l.pat), header_get(cx, env, &l.expr)) {
+                            let present = flow_block(cx, &env.with_rename(&x, "it"), &i.then_branch.stmts, Some(&cont), tail)?;
+                            return Ok(Flow::Header(h, Box::new(els), Box::new(present)));
+                        }
+                        return fail(FILE, cx.item, format!("`if let Some(x) = <response>.headers().get(H)`, found `{}`", canon(&i.cond)));
+                    }
+                    let c = cond(cx, env, &i.cond)?;
+                    let t = flow_block(cx, env, &i.then_branch.stmts, Some(&cont), tail)?;
+                    Ok(Flow::Ite(c, Box::new(t), Box::new(els)))
                 }
-                other => fail(FILE, cx.item, format!("`FX?;`, `if C {{ return Err(..); }}` or `let x = E;`, found `{}`", canon(other))),
+                syn::Expr::Match(m) => {
+                    if let Some(h) = header_get(cx, env, &m.expr) {
+                        if let Some((x, a, b)) = option_arms(m) {
+                            let present = flow_block(cx, &env.with_rename(&x, "it"), &as_stmts(a), Some(&cont), tail)?;
+                            let absent = flow_block(cx, env, &as_stmts(b), Some(&cont), tail)?;
+                            return Ok(Flow::Header(h, Box::new(absent), Box::new(present)));
+                        }
+                    }
+                    fail(FILE, cx.item, format!("a statement `match <response>.headers().get(H) {{ Some(x) => .., None => .. }}`, found `{}`", canon(e0)))
+                }
+                syn::Expr::Tuple(t) if t.elems.is_empty() => Ok(cont),
+                other => fail(FILE, cx.item, format!("`FX?;`, `if C {{ .. }}`, `if let Some(x) = <header> {{ .. }}`, `return ..` or `let x = E;`, found `{}`", canon(other))),
             }
         }
         other => fail(FILE, cx.item, format!("a statement of the listed grammar, found `{}`", canon(other))),
@@ -494,7 +732,7 @@ fn f2l(f: &Flow, ind: usize) -> String {
     let pad = " ".repeat(ind);
     match f {
         Flow::Ok => ".ok".into(),
-        Flow::ErrOther(m) => format!("(.errOther {})", lean::s(m)),
+        Flow::ErrOther => ".errOther".into(),
         Flow::Call(n) => lname(n),
         Flow::Ite(c, t, e) => format!("(.ite {}\n{pad}  {}\n{pad}  {})", c2l(c), f2l(t, ind + 2), f2l(e, ind + 2)),
         Flow::AndThen(a, b) => format!("(.andThen {}\n{pad}  {})", f2l(a, ind + 2), f2l(b, ind + 2)),
@@ -524,13 +762,13 @@ inductive Cond
   | not (c : Cond)
 deriving DecidableEq, Repr
 
-/-- `Result`-valued control flow over one response.  `ok` = `Ok(..)`; `errOther m` = `Err(<..>::Other(m))` (m the
-literal or format string); `andThen a b` = `a?; b`; `header h absent present` = `R.headers().get(h).map_or(absent,
+/-- `Result`-valued control flow over one response.  `ok` = `Ok(..)`; `errOther` = `Err(<..>::Other(..))` (the message
+text is not part of any property and is not recorded); `andThen a b` = `a?; b`; `header h absent present` = `R.headers().get(h).map_or(absent,
 |v| present)`; `decodeError de ty V W keep` = `match de::<ty>(body) { Ok(a) => Err(V(a)), Err(b) => Err(W(b[, body])) }`;
 `decodeSuccess de W keep` = `de(body).map_err(|e| W(e[, body]))`. -/
 inductive Flow
   | ok
-  | errOther (msg : String)
+  | errOther
   | ite (c : Cond) (t e : Flow)
   | andThen (a b : Flow)
   | header (name : String) (absent present : Flow)
@@ -565,8 +803,8 @@ pub fn extract(srcs: &Sources) -> R<String> {
         if params.len() != 1 {
             return fail(FILE, name, "one parameter (the response)");
         }
-        let cx = Cx { item: name, resp: params[0].clone(), lib };
-        let flow = flow_block(&cx, &Env::default(), &f.block.stmts)?;
+        let cx = Cx { item: name, resp: params[0].clone(), lib, file: ep };
+        let flow = flow_block(&cx, &Env::default(), &f.block.stmts, None, true)?;
         flows.push((name.to_string(), flow));
     }
     // callees must be defined before their callers in the Lean file
